@@ -286,6 +286,12 @@ func c10Scenarios(tier string) []txScen {
 		{name: "C10/modack0 spanning S0+S1, waiters on both", cfg: two, prelude: leasedBoth, threads: []txThread{{"W0", []model.Op{pullWait("S0")}}, {"W1", []model.Op{pullWait("S1")}}, {"N", []model.Op{modack("S0", "span", 0)}}}, oracle: waiterGot("W0", "W1"), bound: 2},
 		{name: "C10/ack of an ordered predecessor", cfg: ord, prelude: []model.Op{pubN("T0", "K1", "K1"), pull("S0", 10)}, threads: []txThread{{"W", []model.Op{pullWait("S0")}}, {"A", []model.Op{ack("S0", "oldest")}}}, oracle: waiterGot("W")},
 		{name: "C10/nack dead-letters an ordered predecessor", cfg: ord, prelude: []model.Op{pubN("T0", "K1", "K1"), pull("S0", 10)}, threads: []txThread{{"W", []model.Op{pullWait("S0")}}, {"WD", []model.Op{pullWait("SD")}}, {"N", []model.Op{nack("S0", "oldest")}}}, oracle: waiterGot("W", "WD"), bound: 2},
+		// ... the same when nobody is subscribed to the dead-letter topic, and when it was
+		// deleted: the message is dropped, the successor is deliverable all the same
+		{name: "C10/nack dead-letters an ordered predecessor, dead-letter topic without subscribers", cfg: model.Cfg{Topics: []string{"T0", "TD"}, Subs: []model.SubCfg{{Name: "S0", Topic: "T0", Ordered: true, DLTopic: "TD", MaxAttempts: 1}}},
+			prelude: []model.Op{pubN("T0", "K1", "K1"), pull("S0", 10)}, threads: []txThread{{"W", []model.Op{pullWait("S0")}}, {"N", []model.Op{nack("S0", "oldest")}}}, oracle: waiterGot("W")},
+		{name: "C10/nack dead-letters an ordered predecessor, dead-letter topic deleted", cfg: model.Cfg{Topics: []string{"T0", "TD"}, Subs: []model.SubCfg{{Name: "S0", Topic: "T0", Ordered: true, DLTopic: "TD", MaxAttempts: 1}}},
+			prelude: []model.Op{pubN("T0", "K1", "K1"), pull("S0", 10), delTopic("TD")}, threads: []txThread{{"W", []model.Op{pullWait("S0")}}, {"N", []model.Op{nack("S0", "oldest")}}}, oracle: waiterGot("W")},
 		{name: "C10/pull on the source forwards into the waiter's topic", cfg: ord, prelude: []model.Op{pub1("T0", "", 0), pull("S0", 10), tick("lease+")}, threads: []txThread{{"WD", []model.Op{pullWait("SD")}}, {"P", []model.Op{pull("S0", 10)}}}, oracle: waiterGot("WD")},
 		{name: "C10/sweep forwards into the waiter's topic", cfg: ord, prelude: []model.Op{pub1("T0", "", 0), pull("S0", 10), tick("lease+")}, threads: []txThread{{"WD", []model.Op{pullWait("SD")}}, {"S", []model.Op{sweep()}}}, oracle: waiterGot("WD")},
 		{name: "C10/seek re-opens a message", cfg: two, prelude: []model.Op{pub1("T0", "", 0), pull("S0", 10), ack("S0", "all")}, threads: []txThread{{"W", []model.Op{pullWait("S0")}}, {"K", []model.Op{seekT("S0", "before-all")}}}, oracle: waiterGot("W")},
